@@ -7,6 +7,8 @@ From TS Require Import Spec.Lexers Spec.C15Spec Spec.C15Render.
 From TS Require Proofs.C15_Front Proofs.C15_Replace Proofs.C15 Proofs.C15_Render Proofs.C15_Kotlin Proofs.C15_Go Proofs.C15_Swift Proofs.C15_Python Proofs.C15_TypeScript.
 From TS Require Import Spec.C15RenderSwift.
 From TS Require Proofs.C15_SwiftItem.
+From TS Require Import Spec.C15RenderGo.
+From TS Require Proofs.C15_GoItem Proofs.C15_GoFile.
 Import ListNotations.
 From TS Require Props.C15.
 
@@ -331,3 +333,65 @@ Goal forall (uc : unicode) (cfg : sw_config),
     c15_contained C15sw LCode (mark (c15_file_pieces C15sw parts)) = true.
 Proof. exact Props.C15.C15_sw_file_line_free. Qed.
 Print Assumptions Props.C15.C15_sw_file_line_free.
+Goal forall (uc : unicode) (cfg : go_config) custom_structs,
+  unicode_ok uc ->
+  c15_go_mappings_ok (go_type_mappings cfg) = true ->
+  forallb (forallb is_ascii) (go_uppercase_acronyms cfg) = true ->
+  forall it st text st',
+  c15_go_item_ok it = true ->
+  go_write_item uc cfg custom_structs it st = Ok (text, st') ->
+  exists parts,
+    text = text_of (c15_file_pieces C15go parts) /\
+    docs_of (c15_file_pieces C15go parts) = c15_item_docs_helpers_first it /\
+    c15_contained C15go LCode (mark (c15_file_pieces C15go parts)) = forallb safe_go (c15_item_docs_helpers_first it).
+Proof. exact Props.C15.C15_go_item. Qed.
+Print Assumptions Props.C15.C15_go_item.
+Goal forall (uc : unicode) (cfg : go_config) custom_structs,
+  unicode_ok uc ->
+  c15_go_mappings_ok (go_type_mappings cfg) = true ->
+  forallb (forallb is_ascii) (go_uppercase_acronyms cfg) = true ->
+  forall it st text st',
+  c15_go_item_ok it = true ->
+  Forall (fun d => safe_line eol_lf_cr d = true) (c15_item_docs it) ->
+  go_write_item uc cfg custom_structs it st = Ok (text, st') ->
+  exists parts,
+    text = text_of (c15_file_pieces C15go parts) /\
+    docs_of (c15_file_pieces C15go parts) = c15_item_docs_helpers_first it /\
+    c15_contained C15go LCode (mark (c15_file_pieces C15go parts)) = true.
+Proof. exact Props.C15.C15_go_item_line_free. Qed.
+Print Assumptions Props.C15.C15_go_item_line_free.
+Goal forall (uc : unicode), unicode_ok uc -> forall (cfg : go_config),
+  c15_go_mappings_ok (go_type_mappings cfg) = true ->
+  forallb (forallb is_ascii) (go_uppercase_acronyms cfg) = true ->
+  c15_plain C15go (go_package cfg) = true ->
+  forall pd text,
+  forallb c15_go_item_ok (items_of pd) = true ->
+  go_generate uc cfg pd = Ok text ->
+  let header := if go_no_version_header cfg then []
+                else [lit "Code generated by typeshare " ++ go_version cfg ++ lit ". DO NOT EDIT."] in
+  exists items parts,
+    topsort (items_of pd) = Ok items /\ Permutation items (items_of pd) /\
+    text = text_of (c15_file_pieces C15go parts) /\
+    docs_of (c15_file_pieces C15go parts) = header ++ flat_map c15_item_docs_helpers_first items /\
+    c15_contained C15go LCode (mark (c15_file_pieces C15go parts)) =
+    forallb safe_go (header ++ flat_map c15_item_docs_helpers_first items).
+Proof. exact Props.C15.C15_go_file. Qed.
+Print Assumptions Props.C15.C15_go_file.
+Goal forall (uc : unicode), unicode_ok uc -> forall (cfg : go_config),
+  c15_go_mappings_ok (go_type_mappings cfg) = true ->
+  forallb (forallb is_ascii) (go_uppercase_acronyms cfg) = true ->
+  c15_plain C15go (go_package cfg) = true ->
+  forall pd text,
+  forallb c15_go_item_ok (items_of pd) = true ->
+  Forall (fun d => safe_line eol_lf_cr d = true) (flat_map c15_item_docs (items_of pd)) ->
+  safe_go (go_version cfg) = true ->
+  go_generate uc cfg pd = Ok text ->
+  let header := if go_no_version_header cfg then []
+                else [lit "Code generated by typeshare " ++ go_version cfg ++ lit ". DO NOT EDIT."] in
+  exists items parts,
+    topsort (items_of pd) = Ok items /\ Permutation items (items_of pd) /\
+    text = text_of (c15_file_pieces C15go parts) /\
+    docs_of (c15_file_pieces C15go parts) = header ++ flat_map c15_item_docs_helpers_first items /\
+    c15_contained C15go LCode (mark (c15_file_pieces C15go parts)) = true.
+Proof. exact Props.C15.C15_go_file_line_free. Qed.
+Print Assumptions Props.C15.C15_go_file_line_free.
